@@ -33,7 +33,7 @@ def _scenes(ctx):
                              "detectors": [{"kind": "poynting", "name": "pf", "lo": [3, 3, 6], "hi": [6, 6, 7], "axis": 2}]}, [0, 9]),
         ("mixed-walls", {"shape": [6, 6, 10], "T": 8, "bounds": mixed, "pml": 3, "sources": [{"pos": [3, 3, 5], "pol": 1}], "slab": {"lo": [1, 1, 4], "hi": [5, 5, 6], "eps": 2.5, "mu": 1.5},
                          "detectors": [{"kind": "energy", "name": "en", "lo": [1, 1, 3], "hi": [5, 5, 7]}]}, [1]),
-        ("conductive-every-step", {"shape": [6, 6, 6], "T": 8, "bounds": per, "sources": [{"pos": [3, 3, 3], "pol": 0}], "slab": {"lo": [0, 0, 2], "hi": [6, 6, 4], "eps": 2.0, "sigma": 2e3},
+        ("conductive-every-step", {"shape": [6, 6, 6], "T": 8, "bounds": per, "sources": [{"pos": [3, 3, 3], "pol": 0}], "slab": {"lo": [0, 0, 2], "hi": [6, 6, 4], "eps": 2.0, "mu": 1.5, "sigma": 2e3, "sigma_m": 3e5},  # electric AND magnetic loss
                                    "detectors": [{"kind": "energy", "name": "en", "lo": [1, 1, 1], "hi": [5, 5, 5]}]}, [7]),
     ]
     for name, sc, ks in base:
@@ -59,7 +59,7 @@ def _scenes(ctx):
                      "switch": rng.choice([{}, {"interval": 2}, {"fixed_on_time_steps": sorted(rng.sample(range(T), 3))}])}]
             sc = {"shape": shp, "T": T, "bounds": b, "pml": pml, "sources": [{"pos": c, "pol": rng.randint(0, 2), "kind": rng.choice(["dipole", "mdipole"]),
                                "switch": rng.choice([{}, {}, {"interval": 2}, {"fixed_on_time_steps": sorted(rng.sample(range(T), 4))}, {"start_time": 0.0, "interval": 3}])}],
-                  "slab": {"lo": [c[0] - 1, c[1] - 1, c[2] - 1], "hi": [c[0] + 1, c[1] + 1, c[2] + 1], "eps": rng.choice([1.5, 2.0, 4.0]), "mu": rng.choice([1.0, 1.0, 2.0]), "sigma": sigma}, "detectors": dets}
+                  "slab": {"lo": [c[0] - 1, c[1] - 1, c[2] - 1], "hi": [c[0] + 1, c[1] + 1, c[2] + 1], "eps": rng.choice([1.5, 2.0, 4.0]), "mu": rng.choice([1.0, 1.0, 2.0]), "sigma": sigma, "sigma_m": (rng.choice([0.0, 2e5]) if sigma > 0 else 0.0)}, "detectors": dets}
             K = T - 1 if sigma > 0 else rng.choice([0, 1, 2, T - 1])
             yield {"id": f"rand{n}-K{K}", "scene": sc, "K": K, "wseed": rng.randrange(10**6)}
 
